@@ -71,6 +71,8 @@ _CATS = {
 
 # ----------------------------------------------------------------------------- python regex -> AST
 class Lookaround:
+    lead = False
+
     def __init__(self, negate: bool, ast):
         self.negate = negate
         self.ast = ast
@@ -84,12 +86,21 @@ def from_python(pattern: str, *, ascii_classes: bool = True) -> tuple[tuple, lis
         raise AnalysisError(f"regex constant {pattern!r} is outside re._parser's syntax: {e}") from e
     items = list(parsed.data)
     trailing: list = []
+    # leading look-aheads restrict the whole match: they are returned with .lead = True
+    leading: list = []
+    while items and items[0][0] in (sc.ASSERT, sc.ASSERT_NOT) and len(items) > 1:
+        op, (direction, sub) = items.pop(0)
+        if direction != 1:
+            raise AnalysisError(f"look-behind in {pattern!r}")
+        la = Lookaround(op is sc.ASSERT_NOT, _seq(list(sub.data)))
+        la.lead = True
+        leading.append(la)
     while items and items[-1][0] in (sc.ASSERT, sc.ASSERT_NOT):
         op, (direction, sub) = items.pop()
         if direction != 1:
             raise AnalysisError(f"look-behind in {pattern!r}")
         trailing.insert(0, Lookaround(op is sc.ASSERT_NOT, _seq(list(sub.data))))
-    return _seq(items), trailing
+    return _seq(items), leading + trailing
 
 
 def _charset(items) -> tuple:
